@@ -478,6 +478,22 @@ func (m *mctx) expr(e ast.Expr) string {
 			if _, isEnv := m.envField(x); isEnv {
 				bad("environment field %s used as a value", x.Sel.Name)
 			}
+			if sel := m.g.info.Selections[x]; sel != nil && sel.Kind() == types.FieldVal && len(sel.Index()) > 1 {
+				// a field promoted from an embedded struct (`t.segment` for `t.baseTree.segment`): the path through the embedded
+				// fields, each of which must be a struct value (not a pointer) the translation knows
+				out := leanIdent(m.recv)
+				var cur types.Type = m.g.recvT
+				for _, ix := range sel.Index() {
+					st, ok := cur.Underlying().(*types.Struct)
+					if !ok {
+						bad("promoted field %s through something that is not a struct value", x.Sel.Name)
+					}
+					f := st.Field(ix)
+					out += "." + leanIdent(f.Name())
+					cur = f.Type()
+				}
+				return out
+			}
 			return leanIdent(m.recv) + "." + leanIdent(x.Sel.Name)
 		}
 		if sel := m.g.info.Selections[x]; sel != nil && sel.Kind() == types.FieldVal {
